@@ -10,6 +10,7 @@ From CFDP Require Import Model.Path.
 From CFDP Require Import Model.Udp.
 From CFDP Require Import Model.FsModel.
 From CFDP Require Import Model.CrcBits.
+From CFDP Require Import Model.Pdu Model.PduUser Model.CodecBase Model.Codec Model.CodecUser.
 
 Extraction Language OCaml.
 Extraction "model.ml"
@@ -25,4 +26,12 @@ Extraction "model.ml"
   Udp.udp_recv Udp.udp_initial_buffer
   FsModel.fs_request FsModel.fs_resp_code FsModel.fs_tree_of FsModel.fs_entries
   FsModel.fs_process_request FsModel.fs_exec_requests
+  (* codec (C05, C06) *)
+  Codec.pdu_encode Codec.pdu_decode Codec.payload_encoded_len Codec.pdu_encoded_len Codec.fix_len
+  Codec.header_encoded_len Codec.fs_status_u8 Codec.fs_get_status
+  CodecUser.uo_encode CodecUser.uo_decode CodecUser.uo_encoded_len
+  CodecUser.report_encode CodecUser.report_decode
+  Enums.TraceControl_to_u8 Enums.TraceControl_from_u8 Enums.ListingResponseCode_to_u8
+  Enums.ListingResponseCode_from_u8 Enums.TransactionState_to_u8 Enums.TransactionState_from_u8
+  Enums.RecordContinuationState_to_u8 Enums.RecordContinuationState_from_u8
   .
